@@ -22,7 +22,7 @@
 (* string): a clause is violated on such a run only if it is violated under every spelling, it holds  *)
 (* only if it holds under every spelling; a run that formats two or more NaNs decides nothing.       *)
 (* Output: one raw line  VERDICT {json}  per expression.                                             *)
-EXTENDS Integers, Sequences, TLC, Json, IOUtils, LuaSem
+EXTENDS Integers, Sequences, FiniteSets, TLC, Json, IOUtils, LuaSem
 EV == INSTANCE Evaluator
 
 Cases == ndJsonDeserialize(IOEnv.CASES)
@@ -96,8 +96,8 @@ RhoOutcome(c, k, res) ==
 \* accumulator: per clause ok / viol counters, index of the first violating concretisation, what was observed there
 Clauses == <<"v", "s", "m", "p", "f">>
 NoObs == [st |-> "", ret |-> <<>>, nlog |-> 0, meta |-> 0, bst |-> "", bwhy |-> "", bret |-> <<>>, bnlog |-> 0]
-Acc0 == [ok |-> [x \in {"v", "s", "m", "p", "f"} |-> 0], viol |-> [x \in {"v", "s", "m", "p", "f"} |-> 0],
-         first |-> [x \in {"v", "s", "m", "p", "f"} |-> 0], obs |-> [x \in {"v", "s", "m", "p", "f"} |-> NoObs],
+Zero5 == [v |-> 0, s |-> 0, m |-> 0, p |-> 0, f |-> 0]
+Acc0 == [ok |-> Zero5, viol |-> Zero5, first |-> Zero5, obs |-> [v |-> NoObs, s |-> NoObs, m |-> NoObs, p |-> NoObs, f |-> NoObs],
          nrun |-> 0, ndone |-> 0, nerror |-> 0, nunspec |-> 0, nfuel |-> 0, nnan |-> 0, njobs |-> 0, steps |-> 0, bad |-> 0,
          whys |-> <<>>]
 ObsOf(res) == LET a == res[1] IN LET b == res[3] IN
@@ -133,7 +133,8 @@ Line(c, acc, wf) ==
    v |-> Outcome(c, acc, "v"), s |-> Outcome(c, acc, "s"), m |-> Outcome(c, acc, "m"), p |-> Outcome(c, acc, "p"), f |-> Outcome(c, acc, "f"),
    sound |-> IF acc.viol["v"] = 0 /\ acc.viol["s"] = 0 /\ acc.viol["m"] = 0 THEN 1 ELSE 0,
    ok |-> acc.ok, viol |-> acc.viol, first |-> acc.first,
-   rho |-> [x \in {"v", "s", "m", "p", "f"} |-> IF acc.first[x] = 0 THEN <<0, 0, 0>> ELSE c.rhos[acc.first[x]]],
+   rho |-> LET fr(x) == IF acc.first[x] = 0 THEN <<0, 0, 0>> ELSE c.rhos[acc.first[x]] IN
+           [v |-> fr("v"), s |-> fr("s"), m |-> fr("m"), p |-> fr("p"), f |-> fr("f")],
    obs |-> acc.obs,
    nrun |-> acc.nrun, ndone |-> acc.ndone, nerror |-> acc.nerror, nunspec |-> acc.nunspec, nfuel |-> acc.nfuel, nnan |-> acc.nnan,
    njobs |-> acc.njobs, steps |-> acc.steps, whys |-> acc.whys]
@@ -142,7 +143,6 @@ Line(c, acc, wf) ==
 VARIABLES i, k, j, m, hit, res, acc, ph
 vars == <<i, k, j, m, hit, res, acc, ph>>
 Res0 == <<NoRes, NoRes, NoRes, NoRes>>
-Dummy == [st |-> "idle"]
 
 TInit == /\ i \in 1..Len(Cases)
          /\ k = 1 /\ j = 1 /\ hit = 0 /\ res = Res0 /\ acc = Acc0
